@@ -107,6 +107,7 @@ class World:
         srv = self.st.servers[lc.port]
         w = self.st.wire(peer, ('10.0.0.1', lc.port), 'in')
         task = srv.incoming(self.loop, w.reader, w.writer)
+        w.accept_task = task
         return w, task
 
 
@@ -131,12 +132,37 @@ class Run:
         return var
 
     def bind(self):
+        """which connection object owns an accepted transport: read from the frame of the running accept callback (the
+        local `connection` of ListeningConnection.accept), NOT from the registry - whether it is registered is an obligation"""
         for w in self.st.wires:
-            if w.owner is None:
-                for x in self.W.net.peer_connections:
-                    if x._writer is w.writer:
-                        w.owner = x
-                        self.W.obs.see(x)
+            if w.owner is not None or getattr(w, 'accept_task', None) is None:
+                continue
+            coro = w.accept_task.get_coro()
+            fr = getattr(coro, 'cr_frame', None)
+            x = fr.f_locals.get('connection') if fr is not None and fr.f_code.co_name == 'accept' else None
+            if not (isinstance(x, PeerConnection) and x._writer is w.writer):
+                # the callback already returned (the whole first frame was buffered): the connection it created has reported
+                # something by now; it is the incoming one that holds this transport / was built from this peer address
+                owned = {id(o.owner) for o in self.st.wires if o.owner is not None}
+                known = [y for y in self.W.obs.conns.values() if isinstance(y, PeerConnection) and y.incoming and id(y) not in owned]
+                peer = w.writer.info['peername']
+                x = next((y for y in known if y._writer is w.writer), None) or \
+                    next((y for y in known if (y.hostname, y.port) == tuple(peer)), None)
+            if x is not None:
+                w.owner = x
+                self.W.obs.see(x)
+            elif w.accept_task.done():
+                raise symex.HarnessError('accept callback ended and the connection it created never showed up')
+
+    def wait(self, dt):
+        """scripted pause: the next scripted event happens dt virtual seconds later (time-outs and injections go on)"""
+        box = {}
+
+        def arm():
+            box['until'] = self.loop.time() + dt
+            self.loop.call_later(dt, lambda: None)
+        self.script.append(arm)
+        self.script.append((lambda: self.loop.time() >= box['until'], lambda: None))
 
     def quiescent(self):
         self.idle_moments += 1
@@ -455,7 +481,7 @@ TAILS = ('none', 'frames_eof', 'frames_batch', 'handler_disconnects', 'eof', 'eo
 INJECTS = ('none', 'disconnect', 'double', 'net_disconnect', 'send', 'remote_eof', 'remote_reset')
 
 
-def h_incoming(c, port, first, tail='none', inject='none', n_any=0, slow='none'):
+def h_incoming(c, port, first, tail='none', inject='none', n_any=0, slow='none', pace='now'):
     obf_port = port == 'obf'
     sig = ['incoming', port, first if not first.startswith('any') else 'any', tail]
     loop = VLoop()
@@ -541,10 +567,23 @@ def h_incoming(c, port, first, tail='none', inject='none', n_any=0, slow='none')
             target = lambda: wire.owner
             add_injection(R, c, g, W, inject, target, typ or 'D')
             obf_after = obf_port and typ == 'P'
+            # pace: 'now' = the frame is there at the first idle moment after accept; 'late' = the peer is silent for 20 s first;
+            # 'slow' = silent for 5 s, then the frame dribbles in (3 pieces, 5 s apart).  In between the connection is an open,
+            # accepted socket that has not identified itself yet.
+            if pace not in ('now', 'late', 'slow'):
+                raise symex.HarnessError(pace)
+            if pace != 'now':
+                R.wait(20 if pace == 'late' else 5)
             if plain is not None:
                 data = wire_bytes(g, plain, obf_port, 'first')
-                seg = c.pick(['all', 'split'], 'segmentation') if len(data) > 5 else 'all'
-                for part in (cut(data, [5]) if seg == 'split' else [data]):
+                if pace == 'slow':
+                    parts = cut(data, [3, 9])
+                else:
+                    seg = c.pick(['all', 'split'], 'segmentation') if len(data) > 5 else 'all'
+                    parts = cut(data, [5]) if seg == 'split' else [data]
+                for i, part in enumerate(parts):
+                    if i and pace == 'slow':
+                        R.wait(5)
                     R.script.append(lambda part=part: wire.feed(part))
             if first in ('eof_at_0', 'eof_mid'):
                 R.script.append(wire.remote_eof)
@@ -557,7 +596,7 @@ def h_incoming(c, port, first, tail='none', inject='none', n_any=0, slow='none')
                     return
                 x = wire.owner
                 if x is None:
-                    raise symex.HarnessError('accepted connection not found in the registry')
+                    raise symex.HarnessError('the accept callback created no connection')
                 registered = any(y is x for y in net.peer_connections)
                 established = (registered and obs.last(x) == ConnectionState.CONNECTED and wire.open and acc.done()
                                and any(y is x for y in obs.inits))
@@ -921,6 +960,35 @@ def jobs(tier):
         if slow != 'none':
             params['slow'] = slow
         add('incoming', h_incoming, params, req, 300 if i == 'double' else 60 if i != 'none' else 2)
+    def paced(port, first, pace, i, n_any=None):
+        params = {'port': port, 'first': first, 'inject': i, 'pace': pace}
+        if n_any is not None:
+            params['n_any'] = n_any
+        req = core + ([] if first == 'silence' else ['accepted_registered_iff_valid_init'])
+        add('incoming', h_incoming, params, req, (400 if first == 'any' else 80) if i != 'none' else 4)
+    if quick:
+        for pace in ('late', 'slow'):
+            for i in ('none', 'net_disconnect', 'disconnect', 'remote_eof'):
+                for first in ('init_P', 'pierce_1', 'unknown_code'):
+                    paced('plain', first, pace, i)
+                paced('obf', 'init_D', pace, i)
+            paced('plain', 'any', pace, 'net_disconnect', 13)
+        for i in ('net_disconnect', 'remote_reset'):
+            paced('plain', 'eof_at_0', 'late', i)
+            inc('plain', 'silence', 'none', i)
+    else:
+        for port in ('plain', 'obf'):
+            for pace in ('late', 'slow'):
+                for first in FIRST_ALL:
+                    if first == 'silence' or (pace == 'slow' and first in ('eof_at_0', 'reset_before')):
+                        continue
+                    for i in INJECTS:
+                        if i in ('double', 'send') and first not in ('init_P', 'pierce_1'):
+                            continue
+                        paced(port, first, pace, i)
+                for n in (5, 13, 16):
+                    for i in ('none', 'net_disconnect', 'remote_eof'):
+                        paced(port, 'any', pace, i, n)
     if quick:
         for t in TAILS:
             for i in ('none', 'disconnect', 'send'):
